@@ -27,8 +27,8 @@
 (***************************************************************************)
 EXTENDS Naturals, Sequences, FiniteSets, TLC, Json, SequencesExt, FiniteSetsExt
 
-CONSTANTS Scope,       \* "tiny" | "small" | "full" | "all" | "pick" | "ext" | "bad": slice of the input space enumerated by Init
-                       \* ("all" = the whole product of the slot tables, 6480 graphs: only sampled, through "pick")
+CONSTANTS Scope,       \* "tiny" | "small" | "full" | "all" | "pick" | "ext" | "pfx" | "bad": slice of the input space enumerated by Init
+                       \* ("all" = the whole product of the slot tables, 12960 graphs: only sampled, through "pick")
           OneByOne,  \* TRUE: one node per closure step in any order (confluence); FALSE: one layer per step
           Pick,        \* Scope = "pick": set of graph indices into the whole slot product (otherwise unused)
           Mutant       \* "none" for the real design; other values are self-test mutants TLC must reject
@@ -83,6 +83,16 @@ Out(G, u, x) == O_io(G, x) \cup O_lro(G, x) \cup O_poll(G, x) \cup O_field(G, x)
 RECURSIVE Close(_, _, _)
 Close(G, u, S) == LET T == S \cup UNION {Out(G, u, x) : x \in S} IN IF T = S THEN S ELSE Close(G, u, T)
 
+\* proto files of the target package: every top-level type lives in exactly one file ("enums" <- "common" <- "sel" is the only
+\* import direction; all services are declared in "sel"); a nested type lives where its outermost enclosing message lives
+RECURSIVE TopOf(_, _)
+TopOf(G, t) == IF \E e \in G.parent : e.c = t THEN TopOf(G, (CHOOSE e \in G.parent : e.c = t).p) ELSE t
+Tops(G) == {t \in Types(G) : ~\E e \in G.parent : e.c = t}
+FileOf(G, t) == (CHOOSE r \in G.files : r.t = TopOf(G, t)).f
+Files(G) == {r.f : r \in G.files}
+SvcFile == "sel"
+FileRank(f) == CASE f = "enums" -> 0 [] f = "common" -> 1 [] OTHER -> 2
+
 \* well-formed graphs ("descriptor sets protoc would accept", as far as this abstraction can say)
 WF(G) == /\ G.msgs \cap G.enums = {} /\ Types(G) \cap G.deps = {} /\ RpcNames(G) \cap (Types(G) \cup G.deps) = {}
          /\ \A e \in G.parent : e.c \in Types(G) /\ e.p \in G.msgs
@@ -94,6 +104,8 @@ WF(G) == /\ G.msgs \cap G.enums = {} /\ Types(G) \cap G.deps = {} /\ RpcNames(G)
                               /\ (r.opsvc # "" => PollOf(G, r.opsvc) # {})
          /\ \A r1, r2 \in G.rpcs : RpcName(r1) = RpcName(r2) => r1 = r2
          /\ {G.order[i] : i \in 1..Len(G.order)} = Svcs(G) /\ Len(G.order) = Cardinality(Svcs(G))
+         /\ {r.t : r \in G.files} = Tops(G) /\ Cardinality(G.files) = Cardinality(Tops(G))
+         /\ \A f \in G.fields : f.t \in Types(G) => FileRank(FileOf(G, f.m)) >= FileRank(FileOf(G, f.t))     \* no import cycle
 
 -----------------------------------------------------------------------------
 (* The input space: a parametric family of graphs.  Every slot is one      *)
@@ -155,6 +167,37 @@ ExtGraph(s, ord) ==
                R("Ops", "Delete", "DelOpReq", Empty, "void", "", "", "")}]
 ExtOrders == {<<"S1", "S2", "Ops">>, <<"Ops", "S1", "S2">>}
 
+\* two services whose full names are character-prefixes of one another, both declaring an RPC `Get` (with different
+\* request / response types) and one more RPC each; both declaration orders
+PfxGraph(s, ord) ==
+  [family |-> "pfx",
+   msgs   |-> CommonMsgs \cup {"AdmReq", "AdmResp"},
+   enums  |-> CommonEnums,
+   parent |-> CommonParent,
+   deps   |-> {Empty, DepT},
+   fields |-> CommonFields(s) \cup {Fld("AdmResp", "C", "one")},
+   res    |-> CommonRes,
+   refs   |-> RefOf(s),
+   order  |-> ord,
+   rpcs   |-> {R("Sv", "Get", "ReqA", "A", "unary", "", "", ""),
+               R("Sv", "ListB", "ReqL", "RespL", "paged", "", "", ""),
+               R("SvAdmin", "Get", "AdmReq", "AdmResp", "unary", "", "", ""),
+               R("SvAdmin", "DropRes", "Res", Empty, "void", "", "", "")}]
+PfxOrders == {<<"Sv", "SvAdmin">>, <<"SvAdmin", "Sv">>}
+
+\* placement of the top-level types in files.  enums.proto holds the enum Kind2 (variant "enum+msg": also the message Unused,
+\* which no RPC reaches, so that the file has something to prune); common.proto holds the largest subset of {B, C, Res} that
+\* does not refer back to sel.proto; everything else, and every service, is in sel.proto.
+EnumsFile(ef) == {"Kind2"} \cup (IF ef = "enum+msg" THEN {"Unused"} ELSE {})
+ClosedFile(G, S, E) == \A f \in G.fields : TopOf(G, f.m) \in S => (f.t \in G.deps \/ TopOf(G, f.t) \in S \cup E)
+CommonFile(G, E) == UNION {S \in SUBSET ({"B", "C", "Res"} \cap Types(G)) : ClosedFile(G, S, E)}
+Placed(G, ef) ==
+  LET E == EnumsFile(ef)  C == CommonFile(G, E) IN
+  [family |-> G.family, msgs |-> G.msgs, enums |-> G.enums, parent |-> G.parent, deps |-> G.deps, fields |-> G.fields,
+   res |-> G.res, refs |-> G.refs, order |-> G.order, rpcs |-> G.rpcs,
+   files |-> {[f |-> "enums", t |-> x] : x \in E} \cup {[f |-> "common", t |-> x] : x \in C}
+             \cup {[f |-> "sel", t |-> x] : x \in Tops(G) \ (E \cup C)}]
+
 A1 == {"none", "B", "Outer", "Outer.Inner", "A"}          \* plain sharing / whole nest / nested message only (F5) / self recursion
 A2 == {"none", "Kind", "Outer.Kind"}                      \* top-level enum / nested enum only (F5)
 BB == {"none", "C", "A", "Outer.Inner.Deep"}              \* chain (map field) / cycle A->B->A / deeply nested message only
@@ -163,15 +206,17 @@ RF == {"none", "Res", "ResChild", "Ghost"}                \* resource reference:
 LR == {"B", "Outer.Inner", "Meta"}                        \* LRO response type
 RS == {"none", "C", "Kind2"}                              \* what the resource message needs
 
-Slots(a1, a2, b, c, ref, lro, res) == [a1 : a1, a2 : a2, b : b, c : c, ref : ref, lro : lro, res : res]
+EF == {"enum", "enum+msg"}                                \* what else lives in the proto file of the enum Kind2
+Slots(a1, a2, b, c, ref, lro, res, ef) == [a1 : a1, a2 : a2, b : b, c : c, ref : ref, lro : lro, res : res, ef : ef]
 SlotSpace ==
-  CASE Scope = "small" -> Slots({"B", "Outer", "Outer.Inner"}, {"none", "Outer.Kind"}, {"none", "A"}, {"none"}, {"none", "Res"}, {"B"}, {"none"})
+  CASE Scope = "small" -> Slots({"B", "Outer", "Outer.Inner"}, {"none", "Outer.Kind"}, {"none", "A"}, {"none"}, {"none", "Res"}, {"B"}, {"none"}, {"enum"})
     [] Scope = "full"  -> Slots({"B", "Outer", "Outer.Inner", "A"}, {"Kind", "Outer.Kind"}, {"C", "Outer.Inner.Deep"}, {"B", DepT}, {"ResChild", "Ghost"},
-                                {"Outer.Inner", "Meta"}, {"C", "Kind2"})
-    [] Scope = "all"   -> Slots(A1, A2, BB, CC, RF, LR, RS)
-    [] Scope = "ext"   -> Slots({"none", "B"}, {"Kind"}, {"C"}, {"none"}, {"Res"}, {"B"}, {"Kind2"})
-    [] Scope = "tiny"  -> Slots({"B", "Outer.Inner"}, {"Kind"}, {"C"}, {"B"}, {"Res"}, {"Outer.Inner"}, {"Kind2"})
-    [] OTHER           -> Slots({"B"}, {"Kind"}, {"C"}, {"none"}, {"Res"}, {"B"}, {"none"})
+                                {"Outer.Inner", "Meta"}, {"C", "Kind2"}, {"enum+msg"})
+    [] Scope = "all"   -> Slots(A1, A2, BB, CC, RF, LR, RS, EF)
+    [] Scope = "ext"   -> Slots({"none", "B"}, {"Kind"}, {"C"}, {"none"}, {"Res"}, {"B"}, {"Kind2"}, {"enum+msg"})
+    [] Scope = "pfx"   -> Slots({"B"}, {"Kind"}, {"C"}, {"none"}, {"Res"}, {"B"}, {"Kind2"}, {"enum"})
+    [] Scope = "tiny"  -> Slots({"B", "Outer.Inner"}, {"Kind"}, {"C"}, {"B"}, {"Res"}, {"Outer.Inner"}, {"Kind2"}, {"enum+msg"})
+    [] OTHER           -> Slots({"B"}, {"Kind"}, {"C"}, {"none"}, {"Res"}, {"B"}, {"none"}, {"enum"})
 \* Scope = "pick": the graphs of the whole product ("all") whose index is in Pick (the harness draws the indices from --seed)
 A1s == <<"none", "B", "Outer", "Outer.Inner", "A">>
 A2s == <<"none", "Kind", "Outer.Kind">>
@@ -180,13 +225,15 @@ CCs == <<"none", "B", DepT>>
 RFs == <<"none", "Res", "ResChild", "Ghost">>
 LRs == <<"B", "Outer.Inner", "Meta">>
 RSs == <<"none", "C", "Kind2">>
-FullSize == 5 * 3 * 4 * 3 * 4 * 3 * 3
+EFs == <<"enum", "enum+msg">>
+FullSize == 5 * 3 * 4 * 3 * 4 * 3 * 3 * 2
 PickSlots(i) == [a1 |-> A1s[(i % 5) + 1], a2 |-> A2s[((i \div 5) % 3) + 1], b |-> BBs[((i \div 15) % 4) + 1],
                  c |-> CCs[((i \div 60) % 3) + 1], ref |-> RFs[((i \div 180) % 4) + 1], lro |-> LRs[((i \div 720) % 3) + 1],
-                 res |-> RSs[((i \div 2160) % 3) + 1]]
-Graphs == CASE Scope = "ext"  -> {ExtGraph(s, o) : s \in SlotSpace, o \in ExtOrders}
-            [] Scope = "pick" -> {StdGraph(PickSlots(i % FullSize)) : i \in Pick}
-            [] OTHER          -> {StdGraph(s) : s \in SlotSpace}
+                 res |-> RSs[((i \div 2160) % 3) + 1], ef |-> EFs[((i \div 6480) % 2) + 1]]
+Graphs == CASE Scope = "ext"  -> {Placed(ExtGraph(s, o), s.ef) : s \in SlotSpace, o \in ExtOrders}
+            [] Scope = "pfx"  -> {Placed(PfxGraph(s, o), s.ef) : s \in SlotSpace, o \in PfxOrders}
+            [] Scope = "pick" -> {Placed(StdGraph(PickSlots(i % FullSize)), PickSlots(i % FullSize).ef) : i \in Pick}
+            [] OTHER          -> {Placed(StdGraph(s), s.ef) : s \in SlotSpace}
 
 \* settings entries: [ver: version of the library_settings entry, pkg: version prefix of the method, m: "Svc.Rpc"]
 Entry(v, p, m) == [ver |-> v, pkg |-> p, m |-> m]
@@ -280,7 +327,13 @@ HasInternal(s) == \E n \in RpcNames(g) \ Listed : SvcOf(g, n) = s
 Prefix(s) == IF Sel = "internal" /\ HasInternal(s) /\ Mutant # "no_base" THEN "Base" ELSE ""
 Clients   == UNION {{Prefix(s) \o s \o "Client", Prefix(s) \o s \o "AsyncClient"} : s \in KeptSvcs}
 
+\* a types module per proto file: a file that keeps at least one message OR enum must be emitted (the modules of the kept
+\* types that refer to it import it); a file that keeps nothing is not emitted (the file of the services may be)
+ReqFiles  == IF Mutant = "files_ignore_enums" THEN {FileOf(g, t) : t \in Required \cap g.msgs} ELSE {FileOf(g, t) : t \in Required}
+PermFiles == {FileOf(g, t) : t \in Permitted} \cup (IF KeptSvcs # {} THEN {SvcFile} ELSE {})
+
 \* verdict predicates, applied to observations by SelectiveTrace
+FilesOK(F)     == ReqFiles \subseteq F /\ F \subseteq PermFiles
 TypesOK(K)     == Required \subseteq K /\ K \subseteq Permitted
 RpcsOK(pub, int) == pub = Public /\ int = Internal
 SvcsOK(S)      == S = KeptSvcs
@@ -337,15 +390,22 @@ Inv_Internal == Closed /\ Sel = "internal" =>
                   /\ Required = Types(g) /\ KeptRpcs = RpcNames(g) /\ KeptSvcs = Svcs(g)
                   /\ Public = Listed /\ Internal = RpcNames(g) \ Listed
                   /\ \A s \in Svcs(g) : (\E n \in Internal : SvcOf(g, n) = s) <=> (Prefix(s) = "Base")
+\* the emitted modules are closed under "is imported by": whatever a kept type refers to lives in an emitted module, also when
+\* a file keeps nothing but enums; without pruning every file is emitted
+Inv_Files == Closed => /\ ReqFiles \subseteq PermFiles
+                       /\ \A x \in Required : FileOf(g, x) \in ReqFiles
+                       /\ \A x \in Required, y \in Types(g) : E_field(g, x, y) => FileOf(g, y) \in ReqFiles
+                       /\ (Sel # "prune" => ReqFiles = Files(g))
 Inv_Off == Closed /\ Sel = "off" => Required = Types(g) /\ Public = RpcNames(g) /\ Internal = {} /\ \A s \in Svcs(g) : Prefix(s) = ""
 
 -----------------------------------------------------------------------------
 (* spec -> code: one case per final state with the observables the specification predicts *)
 Case == [graph |-> g, entries |-> entries, listed |-> Listed, mode |-> mode, sel |-> Sel,
          expect |-> IF phase = "failed"
-                    THEN [fail |-> TRUE, reach |-> {}, reachUp |-> {}, public |-> {}, internal |-> {}, svcs |-> {}, clients |-> {},
+                    THEN [fail |-> TRUE, reach |-> {}, reachUp |-> {}, files |-> {}, filesUp |-> {}, enumOnlyFiles |-> {}, public |-> {}, internal |-> {}, svcs |-> {}, clients |-> {},
                           orphans |-> {}, taint |-> {}, pollHidden |-> {}, why |-> {}]
-                    ELSE [fail |-> FALSE, reach |-> Required, reachUp |-> Permitted, public |-> Public, internal |-> Internal,
+                    ELSE [fail |-> FALSE, reach |-> Required, reachUp |-> Permitted, files |-> ReqFiles, filesUp |-> PermFiles,
+                          enumOnlyFiles |-> {f \in ReqFiles : \A t \in Required : FileOf(g, t) = f => t \in g.enums}, public |-> Public, internal |-> Internal,
                           svcs |-> KeptSvcs, clients |-> Clients, orphans |-> {[t |-> x, kind |-> KindOf(x)] : x \in Orphans}, taint |-> Taint,
                           pollHidden |-> PollHidden,
                           why |-> IF Sel = "prune" THEN {[t |-> y, kinds |-> Why(y)] : y \in Required} ELSE {}]]
